@@ -2,10 +2,8 @@ package props
 
 import (
 	"bytes"
-	"context"
 	"fmt"
 	"os"
-	"os/exec"
 	"path/filepath"
 	"strings"
 	"time"
@@ -453,28 +451,27 @@ func c14RunCLI(c *fw.Ctx, what string, args ...string) {
 	if bin == "" {
 		return
 	}
-	ctx, cancel := context.WithTimeout(context.Background(), 600*time.Second)
-	defer cancel()
 	// CPU-time limit (load independent): these files take ~0.05 s of CPU; a
-	// process that burns c14CPULimit seconds is in a busy loop.
-	shArgs := append([]string{"-c", fmt.Sprintf(`ulimit -t %d; exec "$0" "$@"`, c14CPULimit), bin}, args...)
-	cmd := exec.CommandContext(ctx, "sh", shArgs...)
-	var buf bytes.Buffer
-	cmd.Stdout = &buf
-	cmd.Stderr = &buf
-	err := cmd.Run()
+	// process that burns c14CPULimit seconds is in a busy loop. A process that
+	// uses no CPU at all is asked for its goroutines (SIGQUIT): the dump says
+	// whether it is dead-locked.
+	res := fw.RunProcess(bin, args, nil, c14CPULimit, 600*time.Second)
+	err, out := res.Err, res.Out
 	c.Count("cli-"+strings.Fields(what)[0], 1)
-	out := buf.String()
-	if ctx.Err() != nil {
-		// watchdog: take a dump to decide between deadlock and slowness is not possible after kill;
-		// re-run with SIGQUIT after a shorter wait
-		c.Inconclusive("cli-watchdog:" + strings.Fields(what)[0])
+	switch res.Hang {
+	case "watchdog", "idle":
+		c.Inconclusive("cli-" + res.Hang + ":" + strings.Fields(what)[0])
 		return
-	}
-	if ee, ok := err.(*exec.ExitError); ok && ee.ExitCode() == -1 && !strings.Contains(out, "panic: ") && !strings.Contains(out, "fatal error: ") {
+	case "deadlock":
 		c14Hung = true
-		c.Violation("cli-"+strings.Fields(what)[0]+":busy-loop-cpu-limit", fmt.Sprintf("gedcom %s was killed after using more than %d s of CPU time on a file of a few dozen lines (hang)\n%s", strings.Join(args, " "), c14CPULimit, clip(out, 600)), map[string]interface{}{"args": args, "what": what})
+		c.Violation("cli-"+strings.Fields(what)[0]+":deadlock@"+fw.InnermostRepoFrame(res.Dump), fmt.Sprintf("gedcom %s stopped making progress (no CPU time used at all) and the goroutine dump taken with SIGQUIT shows that no goroutine can run (hang)\n%s", strings.Join(args, " "), clip(res.Dump, 2500)), map[string]interface{}{"args": args, "what": what})
 		return
+	case "busy-loop":
+		if !strings.Contains(out, "panic: ") && !strings.Contains(out, "fatal error: ") {
+			c14Hung = true
+			c.Violation("cli-"+strings.Fields(what)[0]+":busy-loop-cpu-limit", fmt.Sprintf("gedcom %s was killed after using more than %d s of CPU time on a file of a few dozen lines (hang)\n%s", strings.Join(args, " "), c14CPULimit, clip(out, 600)), map[string]interface{}{"args": args, "what": what})
+			return
+		}
 	}
 	if CrashedGo(out, err) {
 		class := "panic"
@@ -604,7 +601,7 @@ func c14Run(c *fw.Ctx, i int) {
 			}
 		}
 	}
-	if pi := fw.Try(func() {
+	pi, parked := fw.Guard(func() {
 		l, rr := fresh(), fresh()
 		if r.Bool() {
 			rr, _ = gedcom.NewDocumentFromString(clean)
@@ -618,8 +615,13 @@ func c14Run(c *fw.Ctx, i int) {
 		var buf bytes.Buffer
 		page.WriteHTMLTo(&buf)
 		c.Count("twin-diff-pages", 1)
-	}); pi != nil {
+	})
+	if pi != nil {
 		c.Violation(c14Sig("diff", pi), fmt.Sprintf("Compare/DiffPage panicked: %s (faults %v)", pi.Msg, names), payload)
+	}
+	if parked != "" {
+		c.Violation("diff:deadlock@"+fw.InnermostRepoFrame(parked), fmt.Sprintf("Compare/DiffPage never returns: every goroutine of the library is parked (faults %v)\n%s", names, clip(parked, 2500)), payload)
+		return
 	}
 	for _, qs := range c15Examples {
 		if strings.Contains(qs, "Document2") {
